@@ -29,6 +29,8 @@ def units(tier, seed):
     if tier == "quick":
         codes = _g.sparse_codes(5, 4, (1, 2, 3))
         out += [{"stage": "sparse5", "p": 5, "codes": c} for c in split_list(codes, 32)]
+        # every 8th code of the complete 5-node space (dense graphs, where Meek rules 3 and 4 fire): a fixed stride, not a sample
+        out += [{"stage": "stride5", "p": 5, "codes": list(range(lo, hi, 8))} for lo, hi in _g.chunks(0, 4 ** 10, 64)]
     out += [{"stage": "wide", "p": _g.WIDE_P, "codes": c} for c in split_list(_g.wide_sparse_codes("pdag"), 16)]
     if tier == "thorough":
         out += _g.pdag_units("pdag", 5, 256)
@@ -113,7 +115,7 @@ def replay(kind, case):
 def describe(tier, seed):
     return {
         "technique": "exhaustive enumeration of all PDAGs in a small scope, real code vs brute-force extension sets",
-        "rule": "every base-4 edge code on p labelled nodes whose directed part is acyclic (p<=4 plus 5-node PDAGs with <=4 edges quick; all of p=5 and "
+        "rule": "every base-4 edge code on p labelled nodes whose directed part is acyclic (p<=4 plus 5-node PDAGs with <=4 edges and every 8th code of the complete 5-node space quick; all of p=5 and "
                 "6-node PDAGs with <=4 edges thorough; every 10-node PDAG with <=2 edges); per PDAG: pdag_to_dag, has_consistent_extension and (when an extension exists) "
                 "maximally_orient compared with the brute-force set of consistent extensions and its union graph; non-trivial = "
                 "has an undirected edge and >= 2 edges",
